@@ -10,7 +10,7 @@ import io
 import numpy as np
 
 from ..core import (Violation, Reject, SimCrash, HarnessError, elem_flat,
-                    elem_digest, np_rng, max_abs)
+                    elem_digest, np_rng, max_abs, elem_arrays)
 from .. import seams
 from . import solver_instances as SI
 
@@ -195,7 +195,11 @@ def generate(prop, rng, tier):
     cfg = SI.gen_instance(rng, solver)
     plan = {'workload': w, 'config': cfg,
             'garbage': rng.choice(GARBAGE_FOR_SOLVERS),
-            'global_seed': rng.getrandbits(31)}
+            'global_seed': rng.getrandbits(31),
+            # start values random draws never produce: the zero element, an
+            # element with vanishing entries, integers (kinks of l1 terms)
+            'x0pat': rng.choice(['rand'] * 7 + ['zero', 'zero_entries',
+                                                'ints'])}
     if w == 'lockstep':
         plan['niter'] = rng.randint(2, 10 if solver != 'admm' else 25)
         if solver == 'adupdates' and cfg['random']:
@@ -287,6 +291,20 @@ def execute(prop, plan, ctx):
     seams.begin_run(plan.get('global_seed', 0))
     with seams.allocator('zero'):
         inst = SI.build(plan['config'])
+    pat = plan.get('x0pat', 'rand')
+    if pat != 'rand' and inst.name not in ('mlem', 'osmlem') and \
+            'kl' not in str(getattr(inst, 'tags', '')):
+        g0 = np_rng('x0pat', plan.get('global_seed', 0))
+        for a in elem_arrays(inst.state0['x']):
+            if pat == 'zero':
+                a[...] = 0
+            elif pat == 'ints':
+                a[...] = np.round(2 * a)
+            else:
+                a[g0.random(a.shape) < 0.5] = 0
+        if 'x_relax' in inst.state0:
+            inst.state0['x_relax'].assign(inst.state0['x'])
+        ctx.fired('x0-pattern-' + pat)
     w = plan['workload']
     if w == 'lockstep':
         _lockstep(plan, inst, ctx)
@@ -554,6 +572,18 @@ def _callbacks(plan, inst, ctx):
             # documented convergence exit (zero residual / zero step): fewer
             # callbacks are legitimate iff the iterate solves the system
             early_ok = _linear_residual(inst, st['x']) <= 1e-9
+            if early_ok:
+                ctx.probe('documented-early-exit:' + name)
+        if name in ('bfgs', 'broyden', 'newton', 'nlcg', 'gauss_newton',
+                    'steepest_descent') and rec.count < expect and \
+                hasattr(inst, 'f'):
+            # "we found an optimum": return at a stationary point (met with
+            # the zero element as start value)
+            try:
+                gn = float(inst.f.gradient(st['x']).norm())
+            except Exception:
+                gn = float('inf')
+            early_ok = gn <= 1e-12
             if early_ok:
                 ctx.probe('documented-early-exit:' + name)
         if not early_ok:
